@@ -42,6 +42,13 @@ func (m HandlerPrometheusMetricsMiddleware) Middleware(h message.HandlerFunc) me
 	return func(msg *message.Message) (msgs []*message.Message, err error) {
 		now := time.Now()
 		ctx := msg.Context()
+		if handleAlreadyObserved(ctx) {
+			// the middleware was added twice (like the decorators it must stay idempotent): the outer one observes
+			return h(msg)
+		}
+		msg.SetContext(setHandleObservedToCtx(ctx, true))
+		// the mark is valid during this invocation only: a later invocation with the same message is observed again
+		defer func() { msg.SetContext(setHandleObservedToCtx(msg.Context(), false)) }()
 		labels := prometheus.Labels{
 			labelKeyHandlerName: message.HandlerNameFromCtx(ctx),
 		}
